@@ -149,7 +149,7 @@ func cmdReplay(args []string) int {
 		for _, id := range strings.Split(strings.TrimPrefix(rf.Overlay, "neutralised:"), ",") {
 			for _, f := range ff.Open {
 				if f.ID == id {
-					patches = append(patches, f.Neutraliser...)
+					patches = append(patches, resolveNeutraliser(repo, verif, &f)...)
 				}
 			}
 		}
